@@ -7,8 +7,11 @@ def run(rep, tier, seed):
     rep.rule = ("programs: single if over 27 condition values of every Go kind x else/no else; else-if chains of 3 with all truth "
                 "assignments (with and without if-let); range over 11 subject kinds x lengths 0..2 (quick) / 0..3 (thorough) x "
                 "zero/one/two-variable forms x {:=, =} x '_' in either slot x else/no else; nested ranges over every pair of "
-                "index-providing kinds; all non-trivial; distinct by program. Maps with >1 entry are compared as multisets")
+                "index-providing kinds; loop variables captured into outer variables; all non-trivial; distinct by program. Maps with >1 entry are compared as multisets")
     gen_and_replay(rep, wd, exe, "Gen_C05.tla", "C05", {"MaxLen": 2 if tier == "quick" else 3}, {})
+    # what a range binds is that iteration's value: copied out of the loop it stays what it was (loop-variable capture
+    # for 8 ranger kinds x 3 forms x {:=, =}, two-entry maps in both orders - the families of Gen_C07)
+    gen_and_replay(rep, wd, exe, "Gen_C07.tla", "C05_capture", {"Depth": 0}, {"Kinds": "ScopeKinds"}, trace_execs=0)
     rep.exhaustive = True
 
 def replay(path):
